@@ -52,11 +52,15 @@ Impl(cs) == [cs EXCEPT !.idle = ImplIdle, !.ongoing = ImplOngoing, !.computable 
                        !.fetched = ImplFetched, !.hostComp = ImplHostComp, !.weight = ImplWeight,
                        !.w2tValues = ImplW2t, !.distKeys = ImplDistKeys, !.ovhKeys = ImplOvhKeys, !.done = ImplDone]
 
+Rank(st) == IF st = "available" THEN 2 ELSE IF st = "preparing" THEN 1 ELSE 0
 Diff(cs, is) ==
      (IF cs.idle = is.idle THEN {} ELSE {"P_idle"})
 \cup (IF cs.ongoing = is.ongoing THEN {} ELSE {"P_ongoing"})
 \cup (IF cs.computable = is.computable THEN {} ELSE {"P_computable"})
-\cup (IF cs.dsHost = is.dsHost THEN {} ELSE {"P_dsHost"})
+\* a location the implementation ranks LOWER than the specification (available -> preparing / missing) can leave a task
+\* without a transfer source (C03: "dataset not found in any host"); one it ranks HIGHER can name a source that lacks it (C04)
+\cup (IF \E d \in DS, h \in Host : Rank(is.dsHost[d][h]) < Rank(cs.dsHost[d][h]) THEN {"P_dsHost_lost"} ELSE {})
+\cup (IF \E d \in DS, h \in Host : Rank(is.dsHost[d][h]) > Rank(cs.dsHost[d][h]) THEN {"P_dsHost_phantom"} ELSE {})
 \cup (IF cs.wprep = is.wprep THEN {} ELSE {"I_wprep"})
 \cup (IF Rng(is.fetchQ) \subseteq Rng(cs.fetchQ) THEN {} ELSE {"P_fetchQ_extra"})
 \cup (IF Rng(cs.fetchQ) \subseteq Rng(is.fetchQ) THEN {} ELSE {"P_fetchQ_missing"})
